@@ -28,7 +28,9 @@ HOSTILE_NAMES = ["class", "def", "None", "True", "False", "import", "from", "lam
                  "1st", "2", "3d", "a-b", "a.b", "a_b", "aB", "AB", "ab", "Ab", "_a", "a_", "a__b", "x-", "élan", "Ünï", "名前", "foo", "Foo", "FOO", "foo_", "Foo-1", "fooBar", "foo_bar", "foo-bar",
                  "FooBar", "foo.bar", "x" * 70, "a1", "A1", "a-1", "a_1", "_1st", "_2nd-code", "β1x", "é9", "__3", "_-4", "zip-code", "zip_code", "zipCode", "km", "Km", "KM",
                  # names of things the generated modules use themselves (builtins, decorators, imported value types), dunder / sunder names
-                 "bytes", "tuple", "dataclass", "XmlDate", "xmlDateTime", "XmlPeriod", "sequence", "Mapping", "ForwardRef", "mro", "__slots__", "__init__", "__module__", "_a_", "__annotations__"]
+                 "bytes", "tuple", "dataclass", "XmlDate", "xmlDateTime", "XmlPeriod", "sequence", "Mapping", "ForwardRef", "mro", "__slots__", "__init__", "__module__", "_a_", "__annotations__",
+                 # names of the python types the XSD built-ins map to (a no-namespace user type `bytes` next to an xs:hexBinary element)
+                 "str", "int", "float", "bool", "Decimal", "QName"]
 # names that become the same identifier after the naming conventions: 3 or more of one family in one scope
 COLLISION_FAMILIES = [["foo_bar", "foo-bar", "fooBar", "FooBar", "foo.bar"], ["a-b", "a.b", "a_b", "aB", "a__b"], ["zip-code", "zip_code", "zipCode", "ZipCode", "zip.code"],
                       ["km", "Km", "KM"], ["a1", "A1", "a-1", "a_1"], ["_1st", "1st", "n1st"],
